@@ -397,3 +397,31 @@ func OpaqueParses(s string) bool { _, err := rassemble.Join([]string{s}); return
 //@   tags C19 C16
 //@   results r
 //@   ensures validated: OpaqueParses(r)
+
+// ---- C19: zero-annotation safety sweep over the rest of the operators package -------------------
+//@ contract ProcessorStack.push
+//@   tags C19
+//@   opt termination C19
+
+//@ contract ProcessorStack.pop
+//@   tags C19 C16
+//@   opt termination C19
+//@   results top err
+//@   ensures[C16] empty-stack-fails: implies(len(old(p.processors)) == 0, err != nil)
+
+//@ contract ProcessorStack.top
+//@   tags C19 C16
+//@   opt termination C19
+//@   results top err
+//@   ensures[C16] empty-stack-fails: implies(len(p.processors) == 0, err != nil)
+
+//@ contract Operator.endPreprocessor
+//@   tags C19 C16
+//@   opt termination C19
+//@   results lines err
+//@   modifies processorStack, processor
+
+//@ contract Operator.runFinalPass
+//@   tags C19 C16
+//@   opt termination C19
+//@   results r err
